@@ -51,7 +51,7 @@ def render_lines(L):
 BAD_TOKENS = [("out_of_range", "999999999"), ("beyond_points", "5000"), ("negative", "-5"), ("huge", "99999999999999999999"), ("overflow", "1e999"), ("non_numeric", "abc"), ("zero", "0"), ("float_for_int", "2.5")]
 
 
-WRAP_VALUES = [2 ** 31 - 1, 2 ** 31, 2 ** 32 - 1, 2 ** 32, 2 ** 32 + 1, 2 ** 30, 2 ** 30 + 1, (2 ** 32) // 3, (2 ** 32) // 3 + 1, (2 ** 32) // 3 + 2, (2 ** 32) // 3 + 5,
+WRAP_VALUES = [2 ** 7, 2 ** 8 - 1, 2 ** 8, 2 ** 15 - 1, 2 ** 15, 40000, 2 ** 16 - 2, 2 ** 16 - 1, 2 ** 16, 2 ** 16 + 2 ** 15, 2 ** 17 - 1, 2 ** 31 - 1, 2 ** 31, 2 ** 32 - 1, 2 ** 32, 2 ** 32 + 1, 2 ** 30, 2 ** 30 + 1, (2 ** 32) // 3, (2 ** 32) // 3 + 1, (2 ** 32) // 3 + 2, (2 ** 32) // 3 + 5,
                2 * (2 ** 32) // 3 + 1, 2 * (2 ** 32) // 3 + 2, (2 ** 31) // 3 + 1, 2 ** 63 - 1, 2 ** 63, 2 ** 64 - 1, 2 ** 64]
 
 
@@ -77,9 +77,24 @@ def mesh_faults(rng, L, limit):
             out.append(("token_" + kind, render_lines(M), (i, j, numeric)))
     # integers at which 32/64-bit index arithmetic (k*id + c, k = 1..4) wraps: a guard computed in a narrower type than the
     # access it protects lets exactly these through
-    ints = [(i, j) for (i, j) in pos if L[i][j].isdigit() and not L[i][0][0].isalpha()] + [(i, j) for (i, j) in pos if j > 0 and L[i][j].isdigit() and L[i][0] in ("POINTS", "CELLS", "CELL_TYPES", "CELL_DATA")]
     rng2 = random.Random(len(L) * 7919 + len(pos))
-    for (i, j) in rng2.sample(ints, min(10, len(ints))):
+    # integer positions grouped by the section they belong to (the last header line above them), a few from every section:
+    # point counts, cell records, VTK cell types, the cell_type_id array and the header counts themselves
+    bysec = {}; cur = "HEAD"
+    for i, l in enumerate(L):
+        if l and l[0][:1].isalpha():
+            cur = l[0]
+            for j in range(1, len(l)):
+                if l[j].isdigit():
+                    bysec.setdefault("header:" + cur, []).append((i, j))
+        else:
+            for j in range(len(l)):
+                if l[j].isdigit():
+                    bysec.setdefault(cur, []).append((i, j))
+    ints = []
+    for sec in sorted(bysec):
+        ints += rng2.sample(bysec[sec], min(3, len(bysec[sec])))
+    for (i, j) in ints:
         for v in WRAP_VALUES:
             M = copy.deepcopy(L); M[i][j] = str(v)
             out.append(("wrap_value", render_lines(M), (i, j, True)))
